@@ -13,6 +13,7 @@ registers/coils to one common value per transaction while clients read all N in 
 import re
 
 import vlib
+from checks import p5_system
 
 TYPES = {'c': 'Coil', 'd': 'Discrete', 'h': 'Holding', 'i': 'Input'}
 IDX = [0, 1, 2, 3, 7, 65534, 65535]
@@ -119,7 +120,8 @@ def shrink_candidates(case):
 
 def run(ctx):
     ctx.translate(['Consts.v', 'LockScope.v'])
-    models_ok = ctx.build_models(['Base.Show', 'Model.DbTypes', 'Model.Database', 'Spec.MapSpec', 'Model.Atomic', 'Spec.AtomicSpec'])
+    models_ok = ctx.build_models(['Base.Show', 'Model.DbTypes', 'Model.Database', 'Spec.MapSpec', 'Model.Atomic', 'Spec.AtomicSpec', 'Model.FfiWire'])
+    ctx.models_ok = models_ok
     ctx.prove()
     if ctx.tier == 'thorough':
         ctx.coqchk()
@@ -177,6 +179,9 @@ def run(ctx):
                                   {'cases': [['ops', c]], 'impl': i, 'spec': spec, 'model': model}, no_failing_input=True)
     ctx.oblige('correspondence:database-op-sequences', bad == 0, f'{bad} disagreements on {len(cases)} sequences')
 
+    # ---------------------------------------------------------------- system level: raw frames against the composed model
+    n_sys, sys_classes, sys_samples = p5_system.check_system(ctx, 'read', 1500 if ctx.quick() else 12000, 'reads')
+
     # ---------------------------------------------------------------- thread stress (atomicity)
     stress_out = []
     total_reads = 0
@@ -202,12 +207,13 @@ def run(ctx):
             ctx.oblige('generator-reaches-expected-classes', False, f'{missing} {classes}')
     n_ops = sum(len(i.split(';')) for i in impl)
     ctx.coverage.update({
-        'evaluations': len(cases) + total_reads,
+        'evaluations': len(cases) + total_reads + n_sys,
         'distinct_nontrivial': len(set(c for c in cases if len(c.split()) >= 2)),
         'rule': 'op sequences: groups I: (configure callback), T: (update_database transaction), R: (client read over TCP) with ops add/update/delete/get over the four point types and the index set {0,1,2,3,7,65534,65535}, corpus first, then seeded random; non-trivial = at least two groups; distinct by sequence text. stress reads are counted in evaluations (each is one multi-point reply checked for mixing) but not in distinct_nontrivial',
-        'samples': [[c, i] for c, i in list(zip(cases, impl))[:3]] + [[c, i] for c, i in list(zip(cases, impl))[len(CORPUS):len(CORPUS) + 3]] + stress_out,
-        'input_classes': classes,
+        'samples': [[c, i] for c, i in list(zip(cases, impl))[:3]] + [[c, i] for c, i in list(zip(cases, impl))[len(CORPUS):len(CORPUS) + 3]] + stress_out + sys_samples,
+        'input_classes': dict(classes, system_wire_replies=sys_classes),
         'exhaustive': False,
+        'system_wire_scenarios': n_sys,
         'database_operations_and_reads': n_ops,
         'stress_replies_checked': total_reads,
     })
